@@ -285,7 +285,6 @@ def run(ctx):
     ctx.units("corpus", unit_corpus, [{}])
     from . import magnitude
     magnitude.run_big(ctx, "c04", "check_text", "text")
-    ctx.units("surrogate-code-points", unit_surrogates, [{}])
     ctx.units("model-documents", unit_model, [{"n": 900 if q else 8000, "seed": ctx.seed, "shard": i} for i in range(8 if q else 16)], procs=16)
     ctx.units("noisy-documents", unit_noisy, [{"n": 900 if q else 8000, "seed": ctx.seed, "shard": i} for i in range(8 if q else 16)], procs=16)
     ctx.rule = ("(a) generated documents: the location tree of the AST equals the positions the renderer put the elements at; (b) any accepted document "
